@@ -4,9 +4,10 @@ EXTENDS TemporalBase, TraceBase
 VARIABLES l
 tvars == <<l>>
 E == Rec[l]
-Alphabet(e) == IF e.op = "RealZone.probe" \/ e.op = "Parse.ZonedDateTime" THEN OkKinds \cup {"generic"} ELSE OkKinds
+ProviderBacked == {"RealZone.probe", "TzifBytes.probe", "Parse.ZonedDateTime", "Parse.TimeZone", "Tzdb.table", "Tzdb.offset", "Tzdb.local"}
+Alphabet(e) == IF e.op \in ProviderBacked THEN OkKinds \cup {"generic"} ELSE OkKinds
 Good(e) == e.out.kind \in Alphabet(e)
-ClsOf(e) == IF e.op = "RealZone.probe" THEN e.args.call \o "/" \o e.args.lbl ELSE "string"
+ClsOf(e) == IF e.op = "RealZone.probe" THEN e.args.call \o "/" \o e.args.lbl ELSE IF e.op = "TzifBytes.probe" THEN "corrupted-file/" \o e.out.phase ELSE "outcome"
 TInit == l = 1
 TNext == /\ l <= NEv /\ l' = l + 1
          /\ \/ E.op = "reset"
